@@ -275,3 +275,193 @@ func (g *Gen) WithFnStep(p Path) Path {
 	p.Steps = append(append([]Step{}, p.Steps...), Step{Fn: &c})
 	return p
 }
+
+// ---- general typed expressions (C08, C15) ----
+
+func (g *Gen) varOf(t Type) *Var {
+	var cands []VarSpec
+	for _, v := range g.C.Vars {
+		if v.T == t {
+			cands = append(cands, v)
+		}
+	}
+	if len(cands) == 0 {
+		return nil
+	}
+	v := rng.Pick(g.R, cands)
+	return &Var{Prefix: v.Prefix, Local: v.Local}
+}
+
+func (g *Gen) numLit() Expr {
+	if len(g.C.NumLits) > 0 && g.R.P(50) {
+		return N(rng.Pick(g.R, g.C.NumLits))
+	}
+	return N(float64(g.R.Intn(10)))
+}
+
+func (g *Gen) strLit() Expr {
+	if len(g.C.StrLits) > 0 {
+		return Lit{rng.Pick(g.R, g.C.StrLits)}
+	}
+	return Lit{"a"}
+}
+
+func (g *Gen) pickFn(names ...string) string {
+	var ok []string
+	for _, n := range names {
+		if g.has(n) {
+			ok = append(ok, n)
+		}
+	}
+	if len(ok) == 0 {
+		return ""
+	}
+	return rng.Pick(g.R, ok)
+}
+
+// Expr generates a well-typed expression of type t.
+func (g *Gen) Expr(t Type, depth int) Expr {
+	r := g.R
+	leaf := depth >= g.C.MaxDepth
+	if t == TAnyType {
+		t = Type(r.Intn(4))
+	}
+	switch t {
+	case TNodeSet:
+		if leaf {
+			p := g.relPathN(g.C.MaxDepth, 2)
+			if r.P(40) {
+				p.Abs = true
+			}
+			return p
+		}
+		return g.NodeSetExpr(depth, r.P(50))
+	case TNum:
+		if leaf {
+			if v := g.varOf(TNum); v != nil && r.P(30) {
+				return *v
+			}
+			return g.numLit()
+		}
+		switch r.Intn(9) {
+		case 0, 1:
+			return Binary{rng.Pick(r, []string{"+", "-", "*", "div", "mod"}), g.Expr(TNum, depth+1), g.Expr(TNum, depth+1)}
+		case 2:
+			return Neg{g.Expr(TNum, depth+1)}
+		case 3:
+			if f := g.pickFn("count", "sum"); f != "" {
+				return Fn(f, g.Expr(TNodeSet, depth+1))
+			}
+		case 4:
+			if f := g.pickFn("string-length"); f != "" {
+				if r.P(25) {
+					return Fn(f)
+				}
+				return Fn(f, g.Expr(TStr, depth+1))
+			}
+		case 5:
+			if f := g.pickFn("number"); f != "" {
+				if r.P(25) {
+					return Fn(f)
+				}
+				return Fn(f, g.Expr(TAnyType, depth+1))
+			}
+		case 6:
+			if f := g.pickFn("floor", "ceiling", "round"); f != "" {
+				return Fn(f, g.Expr(TNum, depth+1))
+			}
+		case 7:
+			if f := g.pickFn("position", "last"); f != "" {
+				return Fn(f)
+			}
+		}
+		return g.numLit()
+	case TStr:
+		if leaf {
+			if v := g.varOf(TStr); v != nil && r.P(30) {
+				return *v
+			}
+			return g.strLit()
+		}
+		switch r.Intn(9) {
+		case 0:
+			if f := g.pickFn("string"); f != "" {
+				if r.P(25) {
+					return Fn(f)
+				}
+				return Fn(f, g.Expr(TAnyType, depth+1))
+			}
+		case 1:
+			if g.has("concat") {
+				args := []Expr{g.Expr(TStr, depth+1), g.Expr(TAnyType, depth+1)}
+				if r.Bool() {
+					args = append(args, g.Expr(TStr, depth+1))
+				}
+				return Call{Local: "concat", Args: args}
+			}
+		case 2:
+			if g.has("substring") {
+				args := []Expr{g.Expr(TStr, depth+1), g.Expr(TNum, depth+1)}
+				if r.Bool() {
+					args = append(args, g.Expr(TNum, depth+1))
+				}
+				return Call{Local: "substring", Args: args}
+			}
+		case 3:
+			if f := g.pickFn("substring-before", "substring-after"); f != "" {
+				return Fn(f, g.Expr(TStr, depth+1), g.Expr(TStr, depth+1))
+			}
+		case 4:
+			if f := g.pickFn("normalize-space"); f != "" {
+				if r.P(25) {
+					return Fn(f)
+				}
+				return Fn(f, g.Expr(TStr, depth+1))
+			}
+		case 5:
+			if g.has("translate") {
+				return Fn("translate", g.Expr(TStr, depth+1), g.strLit(), g.strLit())
+			}
+		case 6:
+			if f := g.pickFn("name", "local-name", "namespace-uri"); f != "" {
+				if r.P(30) {
+					return Fn(f)
+				}
+				return Fn(f, g.Expr(TNodeSet, depth+1))
+			}
+		}
+		return g.strLit()
+	case TBool:
+		if leaf {
+			if r.Bool() {
+				return Fn("true")
+			}
+			return Fn("false")
+		}
+		switch r.Intn(8) {
+		case 0, 1, 2:
+			return Binary{rng.Pick(r, []string{"=", "!=", "<", "<=", ">", ">="}), g.Expr(TAnyType, depth+1), g.Expr(TAnyType, depth+1)}
+		case 3:
+			return Binary{rng.Pick(r, []string{"and", "or"}), g.Expr(TBool, depth+1), g.Expr(TBool, depth+1)}
+		case 4:
+			if f := g.pickFn("not", "boolean"); f != "" {
+				return Fn(f, g.Expr(TAnyType, depth+1))
+			}
+		case 5:
+			if f := g.pickFn("contains", "starts-with"); f != "" {
+				return Fn(f, g.Expr(TStr, depth+1), g.Expr(TStr, depth+1))
+			}
+		case 6:
+			if g.has("lang") {
+				return Fn("lang", g.strLit())
+			}
+		}
+		return Fn("true")
+	}
+	return N(1)
+}
+
+// AllFuncs is the full builtin palette.
+var AllFuncs = map[string]bool{"last": true, "position": true, "count": true, "local-name": true, "namespace-uri": true, "name": true, "string": true, "concat": true,
+	"starts-with": true, "contains": true, "substring-before": true, "substring-after": true, "substring": true, "string-length": true, "normalize-space": true,
+	"translate": true, "boolean": true, "not": true, "true": true, "false": true, "lang": true, "number": true, "sum": true, "floor": true, "ceiling": true, "round": true}
